@@ -19,7 +19,7 @@ func init() {
 		Explanation: "STRUCT/GUARD/PATH rules on netstate.Watcher: R-C19-1 lockset (Watcher.m read only under mu, written only under the write lock held entry-to-exit); " +
 			"R-C19-2 every send on a Change channel is a case of a non-blocking select, subscriber channels have constant capacity 8; " +
 			"R-C19-3 the send is guarded by (subscription key & change) != 0 for the key under which the channel is registered and by the interface lookup, value sent is that change; " +
-			"R-C19-4 subscriber channels are closed only in Watch's deferred function under the write lock, after the single-use guard; " +
+			"R-C19-4 subscriber channels are closed only in Watch's deferred function under the write lock, after the single-use guard; that function records that watching has ended, and Subscribe (write lock held) registers its fresh channel exactly once while it has not, and closes it unregistered once it has; " +
 			"R-C19-5 rtnetlink operstate ↔ Change table by name, LinkAny is the OR of all seven, BuildTasks subscribes to LinkDown R-C19-1 also: a function holding Watcher.mu never calls one that acquires it; R-C19-3 is decided on the enumerated paths of notify (helpers in line) and every path through the send loops back to the subscriber loop; the watching guard swaps in a non-zero marker.",
 		Assumptions: []string{
 			"Go type checker and go/ssa construction are correct",
@@ -565,6 +565,8 @@ func c19Close(c *Ctx) {
 	}
 	// all close(ch) on Change channels
 	n := 0
+	nLate := 0
+	var closerFns []*ssa.Function
 	for _, fn := range c.srcFuncs() {
 		for _, b := range fn.Blocks {
 			for _, in := range b.Instrs {
@@ -576,7 +578,13 @@ func c19Close(c *Ctx) {
 				if !ok || bi.Name() != "close" || !isChangeChan(call.Common().Args[0].Type()) {
 					continue
 				}
+				if fn == c.P.Method("internal/netstate", "Watcher", "Subscribe") {
+					// the late-subscriber site: decided with Subscribe's paths below
+					nLate++
+					continue
+				}
 				n++
+				closerFns = append(closerFns, fn)
 				// must be in a closure of Watch that is deferred in Watch, holding the write lock
 				// ... or in a helper that only Watch calls, and only through that defer
 				onlyWatch := fn.Parent() == watch
@@ -660,35 +668,95 @@ func c19Close(c *Ctx) {
 			}
 		}
 	}
-	c.R.Check(n == 1, "R-C19-4", "netstate:close-sites", "", "", fmt.Sprintf("%d close site(s) for Change channels", n), "exactly one close site", "subscriber channels closed at an unexpected number of sites")
+	c.R.Check(n == 1, "R-C19-4", "netstate:close-sites", "", "", fmt.Sprintf("%d close site(s) for Change channels outside Subscribe", n), "exactly one close site (plus Subscribe closing the channel of a late subscriber)", "subscriber channels closed at an unexpected number of sites")
 
-	// each Subscribe registers the fresh channel exactly once
+	// the "watching has ended" flag: a bool field of Watcher that the closing function sets to true
+	// (under the write lock it holds) and nothing else writes
+	doneField := ""
+	for _, cf := range closerFns {
+		for _, b := range cf.Blocks {
+			for _, in := range b.Instrs {
+				if st, ok := in.(*ssa.Store); ok {
+					if fa, ok := st.Addr.(*ssa.FieldAddr); ok {
+						pkg, typ, f := an.FieldAddrName(fa)
+						if k, isC := st.Val.(*ssa.Const); isC && pkg == PkgNet && typ == "Watcher" && k.Value != nil && k.Value.Kind() == constant.Bool && constant.BoolVal(k.Value) {
+							doneField = f
+						}
+					}
+				}
+			}
+		}
+	}
+	if doneField != "" {
+		for _, fs := range an.FindFieldStores(c.srcFuncs(), PkgNet, "Watcher", doneField) {
+			isCloser := false
+			for _, cf := range closerFns {
+				if fs.Fn == cf {
+					isCloser = true
+				}
+			}
+			c.R.Check(isCloser, "R-C19-4", c.fname(fs.Fn)+":writes-Watcher."+doneField, c.fname(fs.Fn), c.pos(fs.Store.Pos()), "writer "+c.fname(fs.Fn),
+				"only the function that closes the subscriber channels marks watching as ended", "the ended flag can be reset: a late subscriber is registered and never closed")
+		}
+	}
+	// each Subscribe either registers the fresh channel exactly once while watching has not ended, or
+	// (watching has ended) closes it once without registering it
 	sub := c.needMethod("R-C19-4", "internal/netstate", "Watcher", "Subscribe")
 	if sub != nil {
+		locked := lockHeld(sub, PkgNet, "Watcher", "mu") == "W"
 		ps := c.pathsO("R-C19-4", sub, an.PathOpts{EmitCut: true})
 		for _, p := range ps {
 			if p.Ret == nil {
 				continue
 			}
-			nApp := 0
+			nApp, nClose := 0, 0
+			closesOwn := true
 			var mk *ssa.MakeChan
 			p.Instrs(func(in ssa.Instruction) {
 				if m, ok := in.(*ssa.MakeChan); ok && isChangeChan(m.Type()) {
 					mk = m
 				}
 				if call, ok := in.(*ssa.Call); ok {
-					if bi, ok := call.Call.Value.(*ssa.Builtin); ok && bi.Name() == "append" {
-						nApp++
+					if bi, ok := call.Call.Value.(*ssa.Builtin); ok {
+						switch bi.Name() {
+						case "append":
+							nApp++
+						case "close":
+							if isChangeChan(call.Call.Args[0].Type()) {
+								nClose++
+								if mk == nil || chanConvOf(call.Call.Args[0]) != ssa.Value(mk) {
+									closesOwn = false
+								}
+							}
+						}
 					}
 				}
 			})
+			ended, tested := false, false
+			for _, a := range p.Atoms {
+				if doneField != "" && a.Cond.IsField(doneField) {
+					tested = true
+					ended = a.Pos
+				}
+			}
 			okRet := mk != nil && len(p.Results) == 1 && p.Results[0].V == ssa.Value(mk)
-			c.R.Check(nApp == 1 && okRet, "R-C19-4", c.fname(sub)+":registers-once@"+pathShape(p), c.fname(sub), c.pos(sub.Pos()),
-				fmt.Sprintf("%d append(s); returns the channel it made=%v", nApp, okRet),
-				"Subscribe appends the channel it creates to the map exactly once and returns that channel",
-				"a channel registered twice would be closed twice")
+			var ok bool
+			state := "watching"
+			switch {
+			case tested && ended:
+				state = "ended"
+				ok = nApp == 0 && nClose == 1 && closesOwn && okRet && locked
+			default:
+				ok = nApp == 1 && nClose == 0 && okRet && tested && locked
+			}
+			c.R.Check(ok, "R-C19-4", c.fname(sub)+":registers-once@"+state+":"+pathShape(p), c.fname(sub), c.pos(sub.Pos()),
+				fmt.Sprintf("ended-flag %q tested=%v ended=%v; %d append(s), %d close(s) (of the fresh channel=%v); returns the channel it made=%v; write lock held=%v", doneField, tested, ended, nApp, nClose, closesOwn, okRet, locked),
+				"while watching has not ended Subscribe appends the channel it creates to the map exactly once; once it has ended it closes that channel instead of registering it; either way it returns that channel",
+				"a channel registered twice would be closed twice; a channel registered after the closing loop ran is never closed")
 		}
 	}
+	c.R.Check(doneField != "", "R-C19-4", "netstate:ended-flag", "", "", fmt.Sprintf("ended flag: %q; %d late-subscriber close site(s)", doneField, nLate),
+		"the closing function records under the write lock that watching has ended, and Subscribe consults it", "a subscriber arriving after Watch has returned gets a channel that is never closed")
 }
 
 func chanConvOf(v ssa.Value) ssa.Value {
